@@ -279,3 +279,115 @@ def algebra_switch_points(ctx, spec, ev, rng, rays=3):
                 pass
     ctx.count("switch_bracket_points", len(pts))
     return np.array(pts) if pts else np.zeros((0, spec.na))
+
+
+# ---------------------------------------------------------------------------------------------------------------------
+# call histories with in-place updates of an element's parameter vector (the library's own idiom,
+# `X.param[6:9] = r.param` in notebook/ins): an element is its *current* parameter vector -- whatever an operation
+# computed earlier for the same object (a cached result) or handed out earlier (a shared vector) must not show.
+GROUP_OPS = {
+    "to_Matrix": lambda G, X, B: X.to_Matrix(),
+    "inverse": lambda G, X, B: X.inverse().param,
+    "product": lambda G, X, B: ca.vertcat((X * B).param, (B * X).param),
+    "log": lambda G, X, B: X.log().param,
+    "Ad": lambda G, X, B: X.Ad(),
+    "group_jacobians": lambda G, X, B: ca.vertcat(X.left_jacobian(), X.right_jacobian()),
+}
+ALGEBRA_OPS = {
+    "exp": lambda G, x, y: x.exp(G).param,
+    "alg_to_Matrix": lambda G, x, y: x.to_Matrix(),
+    "ad": lambda G, x, y: x.ad(),
+    "bracket": lambda G, x, y: ca.vertcat((x * y).param, (y * x).param) if hasattr(type(x), "__mul__") else ca.DM(0),
+    "jacobians": lambda G, x, y: ca.vertcat(x.left_jacobian(), x.right_jacobian(), x.left_jacobian_inv(), x.right_jacobian_inv()),
+}
+
+
+def _val(K, v):
+    a = K.num(v)
+    return None if a is None else a.ravel()
+
+
+def inplace_history(ctx, specs, n, ops):
+    """for every op: evaluate it on an element, overwrite the element's parameter vector in place (same SX object),
+    evaluate again -> must equal the op on a fresh element holding the new vector; results handed out earlier are
+    overwritten in place too -> operands and later results must not change; same for the group's identity."""
+    from .. import contracts as K
+
+    rng = ctx.rng("inplace")
+    for spec in specs:
+        try:
+            G = spec.lib()
+        except Exception:
+            continue
+        P = spec.rand(rng, 2 * n + 2)
+        Xa = spec.alg_rand(rng, 2 * n + 2, hi=PI - 0.2, thi=5.0)
+        npar, nalg = P.shape[1], Xa.shape[1]
+        for op in ops:
+            if op == "identity":
+                continue
+            is_group = op in GROUP_OPS
+            fn = GROUP_OPS[op] if is_group else ALGEBRA_OPS[op]
+            site = "%s:%s" % (op, spec.name)
+            for k in range(n):
+                try:
+                    if is_group:
+                        mk = lambda p: G.elem(ca.DM(p))
+                        p1, p2, other, m = P[2 * k], P[2 * k + 1], G.elem(ca.DM(P[2 * k + 2])), npar
+                    else:
+                        mk = lambda p: G.algebra.elem(ca.DM(p))
+                        p1, p2, other, m = Xa[2 * k], Xa[2 * k + 1], G.algebra.elem(ca.DM(Xa[2 * k + 2])), nalg
+                    X = mk(p1)
+                    r1 = _val(K, fn(G, X, other))
+                    if r1 is None:
+                        continue
+                    if is_group or k % 2 == 0:
+                        X.param[0:m] = ca.DM(p2)  # whole vector, same SX object
+                        pnew = p2
+                    else:
+                        i = int(rng.integers(0, m)); j = int(rng.integers(i + 1, m + 1))
+                        X.param[i:j] = ca.DM(p2[i:j])  # a block, as the INS notebook does
+                        pnew = p1.copy(); pnew[i:j] = p2[i:j]
+                    r2 = _val(K, fn(G, X, other))
+                    rf = _val(K, fn(G, mk(pnew), other))
+                    ctx.tally("inplace_update_then_call:" + site)
+                    ctx.tally("inplace_op:" + op)
+                    if r2 is None or rf is None or r2.shape != rf.shape or not np.allclose(r2, rf, rtol=1e-12, atol=1e-300, equal_nan=True):
+                        ctx.violation("inplace_update_then_call", site, {"param_before": p1, "param_after": pnew, "result_after_update": r2, "result_on_fresh_element": rf,
+                                                                       "result_before_update": r1})
+                    # a result handed out earlier is the caller's: writing into it changes neither operand nor later results
+                    if op in ("inverse", "log", "exp", "product"):
+                        Y = mk(pnew)
+                        R = {"inverse": lambda: Y.inverse(), "log": lambda: Y.log(), "exp": lambda: Y.exp(G), "product": lambda: Y * other}[op]
+                        first = R()
+                        v1 = _val(K, first.param)
+                        first.param[0:first.param.shape[0]] = ca.DM(np.full(first.param.shape[0], 0.123))
+                        v2 = _val(K, R().param)
+                        py = _val(K, Y.param)
+                        ctx.tally("result_is_callers_own:" + site)
+                        if v1 is None or v2 is None or not np.array_equal(v1, v2) or py is None or not np.array_equal(py, pnew):
+                            ctx.violation("result_is_callers_own", site, {"param": pnew, "first_result": v1, "second_result_after_overwriting_first": v2, "operand_after": py})
+                except NotImplementedError:
+                    break
+                except AttributeError:
+                    break  # op not offered by this group (e.g. group Jacobians)
+                except Exception as e:
+                    ctx.count("inplace_history_exception:%s:%s" % (site, type(e).__name__))
+                    break
+        if "identity" in ops or "to_Matrix" in ops:
+            try:
+                M0 = _val(K, G.identity().to_Matrix())
+                for k in range(3):
+                    I = G.identity()
+                    I.param[0:npar] = ca.DM(P[k])  # build another element out of the identity, in place
+                    M1 = _val(K, G.identity().to_Matrix())
+                    ctx.tally("identity_after_inplace_reuse:" + spec.name)
+                    if M0 is None or M1 is None or not np.array_equal(M0, M1):
+                        ctx.violation("identity_after_inplace_reuse", spec.name, {"overwritten_with": P[k], "identity_matrix_before": M0, "identity_matrix_after": M1})
+                        break
+            except NotImplementedError:
+                pass
+            except Exception as e:
+                ctx.count("inplace_history_exception:identity:%s:%s" % (spec.name, type(e).__name__))
+    for op in ops:
+        if op != "identity":
+            ctx.require("inplace_op:" + op, "(in-place history monitor never evaluated)")
